@@ -7,7 +7,7 @@ PROPERTY = 'C37'
 LEVEL = 'model_checking'
 BOUNDS = {'quick': dict(sharing='np_random_split / np_recombine / np_pseudorandom_share / np_pseudorandom_share_0 vs the list versions: (m,t) in {(3,1),(5,2)}, 2 secrets, prime field',
                         arith='SecInt(8) and SecFld(11) arrays of shapes (2,2), (2,), (2,1), (1,2), scalars: + - * neg @ outer sum prod cumsum trace, broadcasting, public operands (m=1)',
-                        shapes='reshape, transpose, flatten, concatenate, stack, vstack, hstack, getitem/slices, flip, roll, diag, tolist/fromlist on a (2,3) array (m=1)',
+                        reduce3d='sum prod all any cumsum over every axis / axis pair of a (1,2,3) array, 3-D transpose / slices', shapes='reshape, transpose, flatten, concatenate, stack, vstack, hstack, getitem/slices, flip, roll, diag, tolist/fromlist on a (2,3) array (m=1)',
                         fxp='SecFxp(8,4) arrays: elementwise product and matmul within one unit per truncation (ideal random bits)',
                         cmp='SecInt(3) arrays of 2 elements: < == sgn minimum maximum amin amax argmin argmax sort vs NumPy (ideal random bits)',
                         io='m=3, t=1 with and without PRSS: input / output of a (2,) SecInt array and an elementwise product with array resharing'),
@@ -216,6 +216,34 @@ def h_arith(env):
         C('cumsum', np.cumsum(A), np.cumsum(Av))
         if Av.ndim == 2:
             C('trace', np.trace(A), np.trace(Av))
+
+
+def h_reduce3d(env):
+    """reductions over every axis (and axis tuples) of a 3-D array; all/any on 0/1 entries."""
+    P = env.params
+    k, mpc, np = _kit(env)
+    st = mpc.SecInt(8)
+    p = st.field.modulus
+    shape = tuple(P['shape'])
+    R = type(mpc)
+    env.encoded(R.np_sum, R.np_prod, R.np_all, R.np_any, R.np_cumsum, R.np_amax)
+    Av, A = _secarr(env, np, st, 'a', shape, -3, 4)
+    Bv, B = _secarr(env, np, st, 'b', shape, 0, 2)
+    C = lambda lab, got, want: _cmp_arrays(env, np, lab, _val(got), want, p)
+    for ax in (0, 1, 2, -1, (0, 2), (1, 2), None):
+        C(f'sum[axis={ax}]', np.sum(A, axis=ax), np.sum(Av, axis=ax))
+        C(f'prod[axis={ax}]', np.prod(A, axis=ax), np.prod(Av, axis=ax))
+        # all / any on bits: product / complement of the product of complements
+        want_all = np.prod(Bv, axis=ax)
+        want_any = 1 - np.prod(1 - Bv, axis=ax)
+        C(f'all[axis={ax}]', np.all(B, axis=ax), want_all)
+        C(f'any[axis={ax}]', np.any(B, axis=ax), want_any)
+    for ax in (0, 1, 2):
+        C(f'cumsum[axis={ax}]', np.cumsum(A, axis=ax), np.cumsum(Av, axis=ax))
+    C('transpose(2,0,1)', np.transpose(A, (2, 0, 1)), np.transpose(Av, (2, 0, 1)))
+    C('swapaxes(0,2)', np.swapaxes(A, 0, 2), np.swapaxes(Av, 0, 2))
+    C('A[:,1,:]', A[:, 1, :], Av[:, 1, :])
+    C('A[0,:,1:]', A[0, :, 1:], Av[0, :, 1:])
 
 
 def h_shapes(env):
@@ -566,6 +594,8 @@ def instances(tier):
             out.append(Inst(f'matmul[{kind},{sa}@{sb}]', h_arith, dict(type=kind, shapes=[list(sa), list(sb)], group='matmul'), **T))
         out.append(Inst(f'reductions[{kind},(2,2)]', h_arith, dict(type=kind, shapes=[[2, 2], [2, 2]], group='reduce'), **T))
     out.append(Inst('shapes[(2,3)]', h_shapes, {}, **T))
+    for shp3 in ([(1, 2, 3)] if q else [(1, 2, 3), (2, 2, 2)]):
+        out.append(Inst(f'reduce3d[{shp3}]', h_reduce3d, dict(shape=list(shp3)), **T))
     out.append(Inst('fxp:mul[8:4]', h_fxp, dict(what='mul'), **T))
     out.append(Inst('fxp:matmul[8:4]', h_fxp, dict(what='matmul'), **T))
     out.append(Inst('fxp:matmul2d_outer[8:4]', h_fxp, dict(what='matmul2'), **T))
